@@ -134,8 +134,31 @@ func histTag(c *Case, res *Result) string {
 	return tag
 }
 
+// hasRecoveryWindow: the case still contains all four maintenance ticks (the minimiser must
+// not turn "state before recovery had its chance" into a reported violation).
+func hasRecoveryWindow(c *Case, res *Result) bool {
+	n := 0
+	for pi, ph := range c.Phases {
+		if ph.Kind == "group" && len(ph.Txns) == 1 && strings.HasPrefix(ph.Txns[0].Name, "tick") {
+			if tr := findResult(res, ph.Txns[0].Name, pi); tr != nil {
+				n++
+			}
+		}
+	}
+	adv := 0
+	for _, ph := range c.Phases {
+		if ph.Kind == "advance" {
+			adv += ph.Seconds
+		}
+	}
+	return n >= 4 && adv >= 8*3600
+}
+
 func oracleC10(c *Case, res *Result) []Violation {
 	var vs []Violation
+	if !hasRecoveryWindow(c, res) {
+		return nil
+	}
 	tag := histTag(c, res)
 	for _, t := range res.Txns {
 		if t.Outcome == "panic" {
@@ -164,7 +187,7 @@ func oracleC10(c *Case, res *Result) []Violation {
 func oracleC11(c *Case, res *Result) []Violation {
 	var vs []Violation
 	tag := histTag(c, res)
-	if res.Audit == nil {
+	if res.Audit == nil || !hasRecoveryWindow(c, res) {
 		return nil
 	}
 	a := res.Audit
